@@ -253,6 +253,12 @@ func checkC06(c *km.Ctx) {
 			if rule == "R-C11-1" && (construct == "accepting return" || construct == "computed verdict" || strings.Contains(construct, "accepting return of VerifyIPRestrictedX509CertIP")) {
 				return "R-C06-6", true
 			}
+			// the refresh endpoint re-issues an automation credential: only for the netblocks and the name of the
+			// certificate that was accepted (a certificate whose netblocks cannot be read is refused, not
+			// re-issued for whatever address it came from)
+			if rule == "R-C11-3" && (construct == "refreshed netblocks" || construct == "refreshed identity" || construct == "refresh admission mask") {
+				return "R-C06-6", true
+			}
 			return "", false
 		}
 		saveExplain, saveND, saveAs := r.Explain, r.NotDecided, r.Assume
